@@ -16,6 +16,7 @@ CONSTANTS
   WithIndexer = FALSE
   MaxHeaders = 0
   TraceMode = TRUE
+  Foreign = FALSE
 INVARIANTS NoLostTopic LockInv RealNoCrash Coverage
 POSTCONDITION TraceAccepted
 CHECK_DEADLOCK FALSE
